@@ -7,7 +7,7 @@ META = {
     "level": "model_checking",
     "technique": "TLA+ contract of ethdb.KeyValueStore (KV.tla) model-checked with TLC; every TLC transition replayed on memorydb, pebble, leveldb and rawdb.NewTable views; recorded random call sequences on all six validated against KVTrace.tla",
     "text": "KV.tla is the interface contract (ordered map, half-open DeleteRange with nil/empty bounds, batch buffering with atomic in-order Write, Reset, Replay, ValueSize, snapshot iterators with prefix/start, reopen). TLC checks the contract's own properties (range semantics, buffering invisible, iterator snapshot stability, exact ValueSize) exhaustively on small key universes, then prints every transition of the reachable graph; the driver establishes each from-state on the real store through its public API, executes the action and compares the result and the complete observable post-state (full iteration, batch content via Replay into a recorder, ValueSize, remaining iterator items, untouched foreign keys below a table view). Equality of the backends follows because each equals the same specification. Long seeded random call sequences (keys over {00,61,62,ff}^<=3, nil/empty bounds, iterators held across writes, close/reopen) are recorded per target and TLC checks each trace is a behaviour of the specification.",
-    "note": "Three deviations of the pinned tree from the contract are modelled as what the code does by the constants QEmptyDel (memorydb), QEager (leveldb), QReplayRange (rawdb table) of KV.tla, so those targets stay bound to an exact specification; replaying the pure contract on them reproduces the deviations, which are reported as PENDING-FINDING C23-F1..F3 (spec/store/NOTES.md) and not as violations. Batch atomicity is decided for the sequential interface (nothing visible before Write, everything after); power-failure atomicity of the disk backends' WAL is not exercised. Trusts TLC and the projection in harness/cmd/c23.",
+    "note": "Three deviations of the pinned tree from the contract are modelled as what the code does by the constants QEmptyDel (memorydb), QEager (leveldb), QReplayRange (rawdb table) of KV.tla, so those targets stay bound to an exact specification; replaying the pure contract on them reproduces the deviations, which are reported as PENDING-FINDING C23-F1..F3 (spec/store/NOTES.md) and not as violations. A fourth one cannot be modelled as a transition: leveldb's batch.DeleteRange with start > end panics inside goleveldb once tables exist below level 0 (C23-F4); the drivers do not issue that call on leveldb targets (the contract's outcome, nothing buffered, is still checked) and a directed step reproduces the panic in a child process. Batch atomicity is decided for the sequential interface (nothing visible before Write, everything after); power-failure atomicity of the disk backends' WAL is not exercised. Trusts TLC and the projection in harness/cmd/c23.",
     "design_ref": "3.4 C23",
 }
 
@@ -46,6 +46,16 @@ def run(ctx):
         line = "PENDING-FINDING: property=C23 %s (%d contract transitions diverge)" % (f, n)
         print(line)
         ctx.notes.append(line)
+    # TODO-KNOWN-FINDING (C23-F4): leveldb batch.DeleteRange(start > end) panics inside goleveldb once tables exist
+    # below level 0; the drivers do not issue that one call on leveldb targets (counted below) and this step
+    # reproduces the panic in a child process
+    s4, _ = ctx.drive(drv, ["-mode", "f4", "-dir", os.path.join(ctx.scratch, "db-f4")], name="c23-finding-F4", timeout=T)
+    if str(s4.get("extra", {}).get("f4", "")).startswith("panic"):
+        line = "PENDING-FINDING: property=C23 C23-F4 leveldb batch.DeleteRange with start > end panics in goleveldb (%s); other backends and the contract: empty range" % s4["extra"]["f4"]
+        print(line)
+        ctx.notes.append(line)
+    else:
+        ctx.notes.append("C23-F4 not reproduced")
     # V: recorded random call sequences per target, validated with the constants of that target
     prefix = os.path.join(ctx.scratch, "tr")
     alltargets = [t for _, ts in VARIANTS for t in ts]
@@ -69,4 +79,4 @@ def run(ctx):
                                    "a written batch is only Reset or Replayed (pebble forbids re-committing)",
                                    "Key()/Value() observed only after Next() returned true",
                                    "keys shorter than the 32-byte 0xff marker ethdb.MaximumKey",
-                                   "deviations C23-F1..F3 modelled by Q* constants and reported as pending findings"])
+                                   "deviations C23-F1..F3 modelled by Q* constants and reported as pending findings; C23-F4 (panic) call not issued on leveldb targets"])
